@@ -170,8 +170,9 @@ def write_evidence(prop, tier, seed, results, wall, nviol, mod):
             'models of externals: operator new/delete (fresh non-reused addresses unless reuse mode), __cxa_* runtime, pthread_mutex as a blocking flag, rdtsc = fresh symbolic value'],
         'wall_s': round(wall, 2), 'violations': nviol,
     }
-    os.makedirs(os.path.join(HERE, 'evidence'), exist_ok=True)
-    json.dump(ev, open(os.path.join(HERE, 'evidence', prop + '.json'), 'w'), indent=1, default=str)
+    evdir = os.environ.get('VERIF_EVIDENCE_DIR') or os.path.join(HERE, 'evidence')     # (seed runs write elsewhere)
+    os.makedirs(evdir, exist_ok=True)
+    json.dump(ev, open(os.path.join(evdir, prop + '.json'), 'w'), indent=1, default=str)
 
 
 def replay_file(path):
